@@ -44,121 +44,90 @@ theorem pg_zero (c s : Expr) : pg 0 c s = s := by simp [pg]
 
 theorem bopPrec_le (op : BOp) : bopPrec op ≤ 16 := by cases op <;> simp [bopPrec]
 
-/-- the language of the printer theorems: no concatenation node, no `++ --`, `$`, `a[i]`; assignment targets are variables -/
-def noConcat : Expr → Bool
-  | .group e => noConcat e
-  | .unary _ e => noConcat e
-  | .binary op l r => op != .concat && noConcat l && noConcat r
-  | .cond c t f => noConcat c && noConcat t && noConcat f
-  | .assign _ (.var _) r => noConcat r
-  | .inArr e _ => noConcat e
-  | .num _ | .var _ | .str _ => true
-  | _ => false
+/-- the operand of `++`/`--` in a canonical tree is an lvalue that `primary()` reads -/
+theorem canon_incr_arg (pc : Bool) (k : Nat) (p d : Bool) (e : Expr) (h : canon pc k (.incr p d e) = true) :
+    e.isLValue = true ∧ canon false 14 e = true := by
+  cases p
+  · cases e <;> simp [canon] at h <;> simp [canon, Expr.isLValue, h]
+  · simp only [canon, Bool.and_eq_true] at h; exact ⟨h.1.2, h.2⟩
+
+theorem incrPrec_le (p : Bool) : (if p then 12 else 13) ≤ 16 := by cases p <;> simp
 
 /-- the printer's tree transformation is idempotent -/
-theorem addShow_idem (e : Expr) (hn : noConcat e = true) (pc : Bool) (k : Nat) (hc : canon pc k e = true) :
-    addShow (addShow e) = addShow e := by
+theorem addShow_idem (e : Expr) (pc : Bool) (k : Nat) (hc : canon pc k e = true) : addShow (addShow e) = addShow e := by
   induction e generalizing pc k with
   | num i => rfl
   | var i => rfl
   | str i => rfl
   | group e ih =>
-    simp only [noConcat] at hn
     simp only [canon, Bool.and_eq_true] at hc
-    simp only [addShow, ih hn _ _ hc.2]
+    simp only [addShow, ih _ _ hc.2]
   | unary op e ih =>
-    simp only [noConcat] at hn
     simp only [canon, Bool.and_eq_true] at hc
-    simp only [addShow, pg_idem 10 e (by omega) (ih hn _ _ hc.2)]
+    simp only [addShow, pg_idem 10 e (by omega) (ih _ _ hc.2)]
   | binary op l r ihl ihr =>
-    simp only [noConcat, Bool.and_eq_true] at hn
     simp only [canon, Bool.and_eq_true] at hc
-    simp only [addShow, pg_idem _ l (bopPrec_le op) (ihl hn.1.2 _ _ hc.1.1.2), pg_idem _ r (bopPrec_le op) (ihr hn.2 _ _ hc.1.2)]
+    simp only [addShow, pg_idem _ l (bopPrec_le op) (ihl _ _ hc.1.1.2), pg_idem _ r (bopPrec_le op) (ihr _ _ hc.1.2)]
   | cond c t f ihc iht ihf =>
-    simp only [noConcat, Bool.and_eq_true] at hn
     simp only [canon, Bool.and_eq_true] at hc
-    simp only [addShow, pg_idem 1 c (by omega) (ihc hn.1.1 _ _ hc.1.1.2), pg_idem 1 t (by omega) (iht hn.1.2 _ _ hc.1.2),
-      pg_idem 1 f (by omega) (ihf hn.2 _ _ hc.2)]
+    simp only [addShow, pg_idem 1 c (by omega) (ihc _ _ hc.1.1.2), pg_idem 1 t (by omega) (iht _ _ hc.1.2),
+      pg_idem 1 f (by omega) (ihf _ _ hc.2)]
   | assign op l r ihl ihr =>
-    cases l <;> simp only [noConcat, Bool.false_eq_true] at hn
     simp only [canon, Bool.and_eq_true] at hc
-    simp only [addShow, pg_zero, ihr hn _ _ hc.2]
+    simp only [addShow, pg_zero, ihl _ _ hc.1.2, ihr _ _ hc.2]
   | inArr e a ih =>
-    simp only [noConcat] at hn
     simp only [canon, Bool.and_eq_true] at hc
-    simp only [addShow, pg_idem 4 e (by omega) (ih hn _ _ hc.2)]
-  | none => simp [noConcat] at hn
-  | incr p d e _ => simp [noConcat] at hn
-  | field e _ => simp [noConcat] at hn
-  | index a i _ => simp [noConcat] at hn
-  | getline c t f _ _ _ => simp [noConcat] at hn
+    simp only [addShow, pg_idem 4 e (by omega) (ih _ _ hc.2)]
+  | incr p d e ih =>
+    have ha := canon_incr_arg pc k p d e hc
+    simp only [addShow, pg_idem _ e (incrPrec_le p) (ih _ _ ha.2)]
+  | field e ih =>
+    simp only [canon, Bool.and_eq_true] at hc
+    simp only [addShow, pg_idem 14 e (by omega) (ih _ _ hc.2)]
+  | index a i ih =>
+    simp only [canon, Bool.and_eq_true] at hc
+    simp only [addShow, ih _ _ hc.2]
+  | none => simp [canon] at hc
+  | getline c t f _ _ _ => simp [canon] at hc
 
-theorem showE_eq_render (e : Expr) (hn : noConcat e = true) (pc : Bool) (k : Nat) (hc : canon pc k e = true) :
-    showE e = render (addShow e) := by
+theorem showE_eq_render (e : Expr) (pc : Bool) (k : Nat) (hc : canon pc k e = true) : showE e = render (addShow e) := by
   induction e generalizing pc k with
   | num i => rfl
   | var i => rfl
   | str i => rfl
   | group e ih =>
-    simp only [noConcat] at hn
     simp only [canon, Bool.and_eq_true] at hc
-    simp only [showE, addShow, render, ih hn _ _ hc.2]
+    simp only [showE, addShow, render, ih _ _ hc.2]
   | unary op e ih =>
-    simp only [noConcat] at hn
     simp only [canon, Bool.and_eq_true] at hc
-    simp only [showE, addShow, render, pg_render 10 (.unary op e) e rfl (ih hn _ _ hc.2)]
+    simp only [showE, addShow, render, pg_render 10 (.unary op e) e rfl (ih _ _ hc.2)]
   | binary op l r ihl ihr =>
-    simp only [noConcat, Bool.and_eq_true] at hn
     simp only [canon, Bool.and_eq_true] at hc
-    simp only [showE, addShow, render, pg_render (bopPrec op) (.binary op l r) l rfl (ihl hn.1.2 _ _ hc.1.1.2),
-      pg_render (bopPrec op) (.binary op l r) r rfl (ihr hn.2 _ _ hc.1.2)]
+    simp only [showE, addShow, render, pg_render (bopPrec op) (.binary op l r) l rfl (ihl _ _ hc.1.1.2),
+      pg_render (bopPrec op) (.binary op l r) r rfl (ihr _ _ hc.1.2)]
   | cond c t f ihc iht ihf =>
-    simp only [noConcat, Bool.and_eq_true] at hn
     simp only [canon, Bool.and_eq_true] at hc
-    simp only [showE, addShow, render, pg_render 1 (.cond c t f) c rfl (ihc hn.1.1 _ _ hc.1.1.2),
-      pg_render 1 (.cond c t f) t rfl (iht hn.1.2 _ _ hc.1.2), pg_render 1 (.cond c t f) f rfl (ihf hn.2 _ _ hc.2)]
+    simp only [showE, addShow, render, pg_render 1 (.cond c t f) c rfl (ihc _ _ hc.1.1.2),
+      pg_render 1 (.cond c t f) t rfl (iht _ _ hc.1.2), pg_render 1 (.cond c t f) f rfl (ihf _ _ hc.2)]
   | assign op l r ihl ihr =>
-    cases l <;> simp only [noConcat, Bool.false_eq_true] at hn
-    rename_i a
     simp only [canon, Bool.and_eq_true] at hc
-    simp only [showE, addShow, render, pg_render 0 (.assign op (.var a) r) r rfl (ihr hn _ _ hc.2), pg_zero]
-    simp [parenT, goPrec]
+    simp only [showE, addShow, render, pg_render 0 (.assign op l r) l rfl (ihl _ _ hc.1.2),
+      pg_render 0 (.assign op l r) r rfl (ihr _ _ hc.2)]
   | inArr e a ih =>
-    simp only [noConcat] at hn
     simp only [canon, Bool.and_eq_true] at hc
-    simp only [showE, addShow, render, pg_render 4 (.inArr e a) e rfl (ih hn _ _ hc.2)]
-  | none => simp [noConcat] at hn
-  | incr p d e _ => simp [noConcat] at hn
-  | field e _ => simp [noConcat] at hn
-  | index a i _ => simp [noConcat] at hn
-  | getline c t f _ _ _ => simp [noConcat] at hn
-
-theorem noConcat_pg (p : Nat) (c s : Expr) (h : noConcat s = true) : noConcat (pg p c s) = true := by
-  unfold pg; split <;> simp [noConcat, h]
-
-theorem noConcat_addShow (e : Expr) (hn : noConcat e = true) : noConcat (addShow e) = true := by
-  induction e with
-  | num i => exact hn
-  | var i => exact hn
-  | str i => exact hn
-  | group e ih => simp only [noConcat] at hn; simp only [addShow, noConcat, ih hn]
-  | unary op e ih => simp only [noConcat] at hn; simp only [addShow, noConcat, noConcat_pg _ _ _ (ih hn)]
-  | binary op l r ihl ihr =>
-    simp only [noConcat, Bool.and_eq_true] at hn
-    simp only [addShow, noConcat, Bool.and_eq_true, noConcat_pg _ _ _ (ihl hn.1.2), noConcat_pg _ _ _ (ihr hn.2), hn.1.1, and_self]
-  | cond c t f ihc iht ihf =>
-    simp only [noConcat, Bool.and_eq_true] at hn
-    simp only [addShow, noConcat, Bool.and_eq_true, noConcat_pg _ _ _ (ihc hn.1.1), noConcat_pg _ _ _ (iht hn.1.2),
-      noConcat_pg _ _ _ (ihf hn.2), and_self]
-  | assign op l r ihl ihr =>
-    cases l <;> simp only [noConcat, Bool.false_eq_true] at hn
-    simp only [addShow, pg_zero, noConcat, ihr hn]
-  | inArr e a ih => simp only [noConcat] at hn; simp only [addShow, noConcat, noConcat_pg _ _ _ (ih hn)]
-  | none => simp [noConcat] at hn
-  | incr p d e _ => simp [noConcat] at hn
-  | field e _ => simp [noConcat] at hn
-  | index a i _ => simp [noConcat] at hn
-  | getline c t f _ _ _ => simp [noConcat] at hn
+    simp only [showE, addShow, render, pg_render 4 (.inArr e a) e rfl (ih _ _ hc.2)]
+  | incr p d e ih =>
+    have ha := canon_incr_arg pc k p d e hc
+    have hp : goPrec (.incr p d e) = (if p then 12 else 13) := rfl
+    simp only [showE, addShow, render, pg_render _ (.incr p d e) e hp (ih _ _ ha.2)]
+  | field e ih =>
+    simp only [canon, Bool.and_eq_true] at hc
+    simp only [showE, addShow, render, pg_render 14 (.field e) e rfl (ih _ _ hc.2)]
+  | index a i ih =>
+    simp only [canon, Bool.and_eq_true] at hc
+    simp only [showE, addShow, render, ih _ _ hc.2]
+  | none => simp [canon] at hc
+  | getline c t f _ _ _ => simp [canon] at hc
 
 theorem canon_false_of_true (e : Expr) : ∀ k, canon true k e = true → canon false k e = true := by
   induction e with
@@ -212,49 +181,174 @@ theorem canon_pg (pc : Bool) (q p : Nat) (child : Expr) (hq : q ≤ 15) (hq1 : 1
     exact ⟨hq, ih false 1 (canon_false pc 1 child (canon_mono pc child q 1 h0 hq1))⟩
   · exact ih pc q h0
 
-theorem canon_addShow (e : Expr) (hn : noConcat e = true) : ∀ pc k, canon pc k e = true → canon pc k (addShow e) = true := by
+/-- first token of the rendering of a (canonical) tree -/
+def firstTok : Expr → Tok
+  | .num i => .num i
+  | .var i => .name i
+  | .str i => .str i
+  | .group _ => .lparen
+  | .unary op _ => uopTok op
+  | .binary _ l _ => firstTok l
+  | .cond c _ _ => firstTok c
+  | .assign _ l _ => firstTok l
+  | .inArr e _ => firstTok e
+  | .incr pre dec e => if pre then (if dec then Tok.decr else Tok.incr) else firstTok e
+  | .field _ => .dollar
+  | .index a _ => .name a
+  | _ => .eof
+
+theorem render_first (e : Expr) : ∀ (pc : Bool) (k : Nat), canon pc k e = true → ∃ ts, render e = firstTok e :: ts := by
+  induction e with
+  | num i => intros; exact ⟨_, rfl⟩
+  | var i => intros; exact ⟨_, rfl⟩
+  | str i => intros; exact ⟨_, rfl⟩
+  | group e _ => intros; exact ⟨_, rfl⟩
+  | unary op e _ => intros; exact ⟨_, rfl⟩
+  | binary op l r ihl _ =>
+    intro pc k hc
+    simp only [canon, Bool.and_eq_true] at hc
+    obtain ⟨ts, h1⟩ := ihl pc _ hc.1.1.2
+    exact ⟨ts ++ (bopToks op ++ render r), by simp only [render, firstTok, h1, List.cons_append, List.append_assoc]⟩
+  | cond c t f ihc _ _ =>
+    intro pc k hc
+    simp only [canon, Bool.and_eq_true] at hc
+    obtain ⟨ts, h1⟩ := ihc pc _ hc.1.1.2
+    exact ⟨ts ++ (.question :: render t ++ .colon :: render f), by simp only [render, firstTok, h1, List.cons_append, List.append_assoc]⟩
+  | assign op l r ihl _ =>
+    intro pc k hc
+    simp only [canon, Bool.and_eq_true] at hc
+    obtain ⟨ts, h1⟩ := ihl false _ hc.1.2
+    exact ⟨ts ++ (.asg op :: render r), by simp only [render, firstTok, h1, List.cons_append]⟩
+  | inArr e a ih =>
+    intro pc k hc
+    simp only [canon, Bool.and_eq_true] at hc
+    obtain ⟨ts, h1⟩ := ih pc _ hc.2
+    exact ⟨ts ++ [.in_, .name a], by simp only [render, firstTok, h1, List.cons_append]⟩
+  | incr p d e ih =>
+    intro pc k hc
+    have ha := canon_incr_arg pc k p d e hc
+    obtain ⟨ts, h1⟩ := ih false 14 ha.2
+    cases p
+    · exact ⟨ts ++ [if d then Tok.decr else Tok.incr], by simp [render, firstTok, h1]⟩
+    · exact ⟨render e, by simp [render, firstTok]⟩
+  | field e _ => intros; exact ⟨_, rfl⟩
+  | index a i _ => intros; exact ⟨_, rfl⟩
+  | none => intro pc k hc; simp [canon] at hc
+  | getline c t f _ _ _ => intro pc k hc; simp [canon] at hc
+
+theorem hd_render_first (e : Expr) (pc : Bool) (k : Nat) (hc : canon pc k e = true) : hd (render e) = firstTok e := by
+  obtain ⟨ts, h⟩ := render_first e pc k hc
+  rw [h]; rfl
+
+theorem firstTok_pg (p : Nat) (c : Expr) (h : firstTok (addShow c) = firstTok c ∨ firstTok (addShow c) = .lparen) :
+    firstTok (pg p c (addShow c)) = firstTok c ∨ firstTok (pg p c (addShow c)) = .lparen := by
+  unfold pg; split
+  · right; rfl
+  · exact h
+
+/-- the printer keeps the first token of a tree, or opens a parenthesis there -/
+theorem firstTok_addShow (e : Expr) : firstTok (addShow e) = firstTok e ∨ firstTok (addShow e) = .lparen := by
+  induction e with
+  | binary op l r ihl _ => simp only [addShow, firstTok]; exact firstTok_pg _ l ihl
+  | cond c t f ihc _ _ => simp only [addShow, firstTok]; exact firstTok_pg _ c ihc
+  | assign op l r ihl _ => simp only [addShow, firstTok]; exact firstTok_pg _ l ihl
+  | inArr e a ih => simp only [addShow, firstTok]; exact firstTok_pg _ e ih
+  | incr p d e ih =>
+    simp only [addShow, firstTok]
+    cases p
+    · simpa using firstTok_pg _ e ih
+    · left; rfl
+  | _ => left; simp [addShow, firstTok]
+
+theorem startOk_lparen : startOk .lparen = true := rfl
+
+/-- printing maps the parser's range into itself -/
+theorem canon_addShow (e : Expr) : ∀ pc k, canon pc k e = true → canon pc k (addShow e) = true := by
   induction e with
   | num i => intro pc k h; exact h
   | var i => intro pc k h; exact h
   | str i => intro pc k h; exact h
   | group e ih =>
     intro pc k h
-    simp only [noConcat] at hn
     simp only [addShow, canon, Bool.and_eq_true] at h ⊢
-    exact ⟨h.1, ih hn _ _ h.2⟩
+    exact ⟨h.1, ih _ _ h.2⟩
   | unary op e ih =>
     intro pc k h
-    simp only [noConcat] at hn
     simp only [addShow, canon, Bool.and_eq_true] at h ⊢
-    exact ⟨h.1, canon_pg pc 11 10 e (by omega) (by omega) h.2 (ih hn)⟩
+    exact ⟨h.1, canon_pg pc 11 10 e (by omega) (by omega) h.2 ih⟩
   | binary op l r ihl ihr =>
     intro pc k h
-    simp only [noConcat, Bool.and_eq_true] at hn
     simp only [addShow, canon, Bool.and_eq_true] at h ⊢
     have hs := sides_le op
     have h1 : 1 ≤ op.lhs ∧ 1 ≤ op.rhs := by cases op <;> simp [BOp.lhs, BOp.rhs, BOp.assoc, BOp.prec]
-    refine ⟨⟨⟨h.1.1.1, canon_pg pc _ _ l hs.1 h1.1 h.1.1.2 (ihl hn.1.2)⟩, canon_pg pc _ _ r hs.2 h1.2 h.1.2 (ihr hn.2)⟩, ?_⟩
-    simp [catOk, hn.1.1]
+    have hr' := canon_pg pc _ (bopPrec op) r hs.2 h1.2 h.1.2 ihr
+    refine ⟨⟨⟨h.1.1.1, canon_pg pc _ _ l hs.1 h1.1 h.1.1.2 ihl⟩, hr'⟩, ?_⟩
+    -- the blank operator: the printed right operand still starts with a token on which `concat()` continues
+    have hcat := h.2
+    unfold catOk at hcat ⊢
+    by_cases hop : (op != BOp.concat) = true
+    · simp [hop]
+    · simp only [hop, Bool.false_or] at hcat ⊢
+      rw [hd_render_first _ pc _ hr']
+      rw [hd_render_first r pc _ h.1.2] at hcat
+      rcases firstTok_pg (bopPrec op) r (firstTok_addShow r) with h' | h'
+      · rw [h']; exact hcat
+      · rw [h']; rfl
   | cond c t f ihc iht ihf =>
     intro pc k h
-    simp only [noConcat, Bool.and_eq_true] at hn
     simp only [addShow, canon, Bool.and_eq_true] at h ⊢
-    exact ⟨⟨⟨h.1.1.1, canon_pg pc 3 1 c (by omega) (by omega) h.1.1.2 (ihc hn.1.1)⟩,
-      canon_pg false 1 1 t (by omega) (by omega) h.1.2 (iht hn.1.2)⟩, canon_pg pc 1 1 f (by omega) (by omega) h.2 (ihf hn.2)⟩
+    exact ⟨⟨⟨h.1.1.1, canon_pg pc 3 1 c (by omega) (by omega) h.1.1.2 ihc⟩, canon_pg false 1 1 t (by omega) (by omega) h.1.2 iht⟩,
+      canon_pg pc 1 1 f (by omega) (by omega) h.2 ihf⟩
   | assign op l r ihl ihr =>
     intro pc k h
-    cases l <;> simp only [noConcat, Bool.false_eq_true] at hn
     simp only [addShow, pg_zero, canon, Bool.and_eq_true, decide_eq_true_eq] at h ⊢
-    exact ⟨h.1, ihr hn _ _ h.2⟩
+    refine ⟨⟨⟨h.1.1.1, ?_⟩, ihl _ _ h.1.2⟩, ihr _ _ h.2⟩
+    have := h.1.1.2
+    cases l <;> simp [Expr.isLValue] at this <;> simp [addShow, Expr.isLValue]
   | inArr e a ih =>
     intro pc k h
-    simp only [noConcat] at hn
     simp only [addShow, canon, Bool.and_eq_true] at h ⊢
-    exact ⟨h.1, canon_pg pc 5 4 e (by omega) (by omega) h.2 (ih hn)⟩
+    exact ⟨h.1, canon_pg pc 5 4 e (by omega) (by omega) h.2 ih⟩
+  | incr p d e ih =>
+    intro pc k h
+    have hk : k ≤ 13 := canon_incr_le pc k p d e h
+    have ha := canon_incr_arg pc k p d e h
+    have h14 := ih false 14 ha.2
+    -- an lvalue is never parenthesised under `++`/`--` (its precedence is at least that of `$`)
+    have hpg : pg (if p then 12 else 13) e (addShow e) = addShow e := by
+      unfold pg
+      have : ¬ goPrec e < (if p then 12 else 13) := by
+        have := ha.1
+        cases e <;> simp [Expr.isLValue] at this <;> cases p <;> simp [goPrec]
+      simp [this]
+    simp only [addShow, hpg]
+    cases p
+    · cases e with
+      | var a => simpa [addShow, canon] using hk
+      | index a i =>
+        simp only [addShow, canon, Bool.and_eq_true, decide_eq_true_eq] at h14 ⊢
+        exact ⟨hk, h14.2⟩
+      | field e' =>
+        simp only [canon, Bool.and_eq_true, decide_eq_true_eq] at h
+        simp only [addShow, canon, Bool.and_eq_true, decide_eq_true_eq] at h14 ⊢
+        refine ⟨⟨hk, ?_⟩, h14.2⟩
+        have hcl := h.1.2
+        unfold pg
+        cases e' <;> simp [closed] at hcl <;> simp [addShow, goPrec, closed]
+      | _ => simp [Expr.isLValue] at ha
+    · simp only [canon, Bool.and_eq_true, decide_eq_true_eq]
+      refine ⟨⟨hk, ?_⟩, h14⟩
+      have := ha.1
+      cases e <;> simp [Expr.isLValue] at this <;> simp [addShow, Expr.isLValue]
+  | field e ih =>
+    intro pc k h
+    simp only [addShow, canon, Bool.and_eq_true] at h ⊢
+    exact ⟨h.1, canon_pg false 14 14 e (by omega) (by omega) h.2 ih⟩
+  | index a i ih =>
+    intro pc k h
+    simp only [addShow, canon, Bool.and_eq_true] at h ⊢
+    exact ⟨h.1, ih _ _ h.2⟩
   | none => intro pc k h; simp [canon] at h
-  | incr p d e _ => simp [noConcat] at hn
-  | field e _ => simp [noConcat] at hn
-  | index a i _ => simp [noConcat] at hn
   | getline c t f _ _ _ => intro pc k h; simp [canon] at h
 
 end GoawkModel.C20
